@@ -27,3 +27,16 @@ TWINS = [
     T("cli-two-writes-constant-second", "sharepoint2text/cli.py", '        sys.stdout.write(output + "\\n")\n        return 0', '        sys.stdout.write(output)\n        sys.stdout.write("\\n")\n        return 0'),
     T("loop-increment-reordered", X + "util/encryption.py", "        offset += 4 + record_len", "        offset += record_len + 4"),
 ]
+
+# --- seeded changes kept under /verif/seeded (sub-agents saw only the property text); each must be reported by the named rule
+import os as _os
+from sa.selftest.harness import P as _P
+_SEEDS = _os.path.join(_os.path.dirname(_os.path.dirname(_os.path.dirname(_os.path.abspath(__file__)))), "seeded")
+SEEDED = [
+    ("C01-1", "C01-WRAP"),
+    ("C01-2", "C01-LOOP"),
+    ("C01-3", "C01-CLI"),
+    ("C01-4", "C01-LOOP"),
+    ("C01-5", "C01-CLI"),
+]
+MUTANTS = list(MUTANTS) + [_P("seed-" + sid, _os.path.join(_SEEDS, sid, "patch.diff"), rule) for sid, rule in SEEDED if _os.path.exists(_os.path.join(_SEEDS, sid, "patch.diff"))]
